@@ -858,7 +858,7 @@ static void sc_staleintr(std::uint64_t seed)
 {
     rng r{seed};
     auto hit = std::make_shared<std::atomic<int>>(0);
-    int victims = 2 + int(r.below(3));
+    int victims = 6 + int(r.below(4));
     for (int v = 0; v < victims; ++v)
     {
         pika::thread t([=] { activity a; });
@@ -871,23 +871,30 @@ static void sc_staleintr(std::uint64_t seed)
         t.interrupt();
         t.join();
     }
-    int n = 6 + int(r.below(6));
-    std::vector<pika::thread> later;
-    for (int i = 0; i < n; ++i)
-        later.emplace_back([=] {
-            activity a;
-            try
-            {
-                pika::this_thread::interruption_point();
-                iyield();
-                pika::this_thread::interruption_point();
-            }
-            catch (pika::thread_interrupted const&)
-            {
-                hit->fetch_add(1);
-            }
-        });
-    for (auto& t : later) t.join();
+    // terminated objects are recycled lazily (clean-up of the terminated list): several batches, so that the objects of the
+    // victims come round
+    int n = 0;
+    for (int batch = 0; batch < 4; ++batch)
+    {
+        int m = 16 + int(r.below(9));
+        n += m;
+        std::vector<pika::thread> later;
+        for (int i = 0; i < m; ++i)
+            later.emplace_back([=] {
+                activity a;
+                try
+                {
+                    pika::this_thread::interruption_point();
+                    iyield();
+                    pika::this_thread::interruption_point();
+                }
+                catch (pika::thread_interrupted const&)
+                {
+                    hit->fetch_add(1);
+                }
+            });
+        for (auto& t : later) t.join();
+    }
     if (hit->load() != 0)
         monitor("staleintr: " + std::to_string(hit->load()) + " thread(s) nobody interrupted received thread_interrupted (a request aimed at a "
                 "finished thread survived the recycling of its thread object)");
